@@ -237,6 +237,9 @@ func (c *Client) ConsensusParams(ctx context.Context, height *int64) (*ctypes.Re
 	if res.BlockHeight <= 0 {
 		return nil, errNegOrZeroHeight
 	}
+	if height != nil && res.BlockHeight != *height {
+		return nil, fmt.Errorf("consensus params of height %d, expected %d", res.BlockHeight, *height)
+	}
 
 	// Update the light client if we're behind.
 	l, err := c.updateLightClientIfNeededTo(ctx, &res.BlockHeight)
@@ -272,6 +275,10 @@ func (c *Client) BlockchainInfo(ctx context.Context, minHeight, maxHeight int64)
 		}
 		if err := meta.ValidateBasic(); err != nil {
 			return nil, fmt.Errorf("invalid block meta %d: %w", i, err)
+		}
+		if h := meta.Header.Height; (minHeight > 0 && h < minHeight) || (maxHeight > 0 && h > maxHeight) {
+			return nil, fmt.Errorf("block meta %d of height %d is outside the requested range [%d, %d]",
+				i, h, minHeight, maxHeight)
 		}
 	}
 
@@ -327,6 +334,10 @@ func (c *Client) Block(ctx context.Context, height *int64) (*ctypes.ResultBlock,
 			bmH, bH)
 	}
 
+	if height != nil && res.Block.Height != *height {
+		return nil, fmt.Errorf("block of height %d, expected %d", res.Block.Height, *height)
+	}
+
 	// Update the light client if we're behind.
 	l, err := c.updateLightClientIfNeededTo(ctx, &res.Block.Height)
 	if err != nil {
@@ -359,6 +370,10 @@ func (c *Client) BlockByHash(ctx context.Context, hash []byte) (*ctypes.ResultBl
 	if bmH, bH := res.BlockID.Hash, res.Block.Hash(); !bytes.Equal(bmH, bH) {
 		return nil, fmt.Errorf("blockID %X does not match with block %X",
 			bmH, bH)
+	}
+
+	if !bytes.Equal(res.BlockID.Hash, hash) {
+		return nil, fmt.Errorf("block with hash %X, expected %X", res.BlockID.Hash, hash)
 	}
 
 	// Update the light client if we're behind.
